@@ -5,7 +5,7 @@ CONSTANTS
   PT <- PTFull
   Modes = {"run"}
   ChainedSet = {TRUE, FALSE}
-  Starts = {0, 2}
+  Starts = {1}
   Targets = {0, 3}
   Corruptions <- NoCorruption
   NT = 1
